@@ -230,6 +230,12 @@ func (fr *frame) callStatic(fn *ssa.Function, args []*Val, bindings []*Val, st *
 		return &Val{t: fmt.Sprintf("(str.suffixof %s %s)", args[1].t, args[0].t)}
 	case "strings.Contains":
 		return &Val{t: fmt.Sprintf("(str.contains %s %s)", args[0].t, args[1].t)}
+	case "strings.TrimPrefix":
+		return &Val{t: fr.defSort("trim", "String", fmt.Sprintf("(ite (str.prefixof %s %s) (str.substr %s (str.len %s) (- (str.len %s) (str.len %s))) %s)",
+			args[1].t, args[0].t, args[0].t, args[1].t, args[0].t, args[1].t, args[0].t))}
+	case "strings.TrimSuffix":
+		return &Val{t: fr.defSort("trim", "String", fmt.Sprintf("(ite (str.suffixof %s %s) (str.substr %s 0 (- (str.len %s) (str.len %s))) %s)",
+			args[1].t, args[0].t, args[0].t, args[0].t, args[1].t, args[0].t))}
 	case "strings.EqualFold":
 		u.abstract("strings.EqualFold")
 	}
